@@ -129,11 +129,20 @@ fn main() {
                 }
                 tr.attrs.retain(|a| !a.path.is_ident("cglue_trait"));
                 let name = tr.ident.to_string();
-                // exported methods only: `#[skip_func]` methods have no vtable slot by definition
+                // exported methods only: `#[skip_func]` methods have no vtable slot by definition, and
+                // neither have methods with type parameters of their own and a default body (the
+                // opaque object runs the default body)
                 let decl: Vec<String> = tr
                     .items
                     .iter()
-                    .filter_map(|i| if let syn::TraitItem::Method(m) = i { if m.attrs.iter().any(|a| a.path.is_ident("skip_func")) { None } else { Some(m.sig.ident.to_string()) } } else { None })
+                    .filter_map(|i| {
+                        if let syn::TraitItem::Method(m) = i {
+                            let generic_default = m.default.is_some() && m.sig.generics.type_params().next().is_some();
+                            if m.attrs.iter().any(|a| a.path.is_ident("skip_func")) || generic_default { None } else { Some(m.sig.ident.to_string()) }
+                        } else {
+                            None
+                        }
+                    })
                     .collect();
                 lines.push(format!("decl {}: {}", name, decl.join(" ")));
                 let text = tr.to_token_stream().to_string();
